@@ -137,7 +137,11 @@ CHECKS = {
               "meaning the 4-digit rounding of the original (exactly the original for exactly printable numbers and pairs), for "
               "every printable list over grammar-readable variable names. "
               "C10_code_* / C14_code_*: to_machine_dict, to_dict, from_dict, validate_contract_dict, _check_clause and the file "
-              "reader/writer (between json.load and json.dumps) as translated from the source on this run equal model/Json.v (T1 tie). "
+              "reader/writer (between json.load and json.dumps) as translated from the source on this run equal model/Json.v (T1 tie); "
+              "C10_code_compound_to_dict / _from_strings / _write_compound: the compound contract's dictionary form as translated on this run "
+              "equals model/JsonCompound.v, and C10_compound_roundtrip / _file_read_back / C10_compound_string_roundtrip: to_dict emits one string "
+              "list per alternative, in order, each side from its own alternatives, and reading it back yields alternative by alternative "
+              "lists of the same meaning (no alternative lost, added, merged or reordered). "
               "model/Printer.v agrees with Python character for character on doubles across decades/ties/switch-overs and on "
               "to_str_list; model/Json.v agrees on dictionaries; real round trips through dicts, strings and files are re-decided exactly."),
         design="4 (C10)", note=NOTE_R + " The string round trip uses the real parser (model: C09); -0.0/NaN/inf outside the models."),
@@ -156,15 +160,24 @@ CHECKS = {
               "model and compared with an exact rational LP. C12_code_optimize / _get_variable_bounds: optimize and get_variable_bounds as translated from the source on this run equal the model (T1 tie)."),
         design="4 (C12)", note=NOTE_R + " The objective string is parsed by the real grammar (model of the parser: C09)."),
     "C13": dict(
-        technique="Coq session-machine theorems by induction over operation lists (partial) + lock-step histories on the real library with deep snapshots, aliasing analysis and fresh-interpreter replay",
-        text=("PARTIAL. Theorems C13_frame_partial / C13_globals_partial / C13_history_independent_partial (props/C13.v): in the pure "
-              "session machine model/Session.v (operations interpreted by the value-level models, operands selected by pool index) no "
-              "operation list of any length changes an existing pool member or the module-level state, and a step's result depends "
-              "only on its argument values. These are near-definitional for a functional model; CPython object identity and aliasing "
-              "cannot be modelled with what is installed, so violations are detected by the histories: every pool member, list "
-              "argument and module-level state is snapshotted around each of 12-30 operations per history, results are analysed for "
-              "shared mutable objects and mutated in place, and every step is repeated in the same session and in a fresh interpreter."),
-        design="4 (C13)", note=NOTE_T1 + " The purity of the real library is established only on the explored histories."),
+        technique="Coq proof: soundness of a static ownership checker over a heap-level effect language, instantiated by computation on the effect program extracted from the source on every run (T1) + session-machine theorems (partial) + lock-step histories on the real library with deep snapshots, aliasing analysis and fresh-interpreter replay",
+        text=("PARTIAL. Heap level (props/C13h.v): base/PyHeap.v models objects as mutable cells addressed by references (aliasing is real, stores and "
+              "in-place list operations update the cell) with an executable oracle-driven interpreter and a static checker of 'writes only to "
+              "what this activation allocated'; proofs/PyHeapFacts.v proves for EVERY checked program that a terminating run of a function that "
+              "does not declare mutates_self changes no cell that existed before the call (frame), that declared receiver-mutators change at "
+              "most the receiver's cell, that results claimed fresh are new objects, and that any sequence of pure calls leaves the initial heap "
+              "intact. gen/HeapGen.v is the effect program of 212 pacti functions regenerated from /repo/src on every run (translator/"
+              "py2coq_heap.py); C13_code_checked re-establishes check_prog pacti_prog = true by computation, so C13_heap_operands_unchanged / "
+              "_only_receiver_changed / _results_new / _history_independent / _public_operations (122 public operations by name) hold for the "
+              "code as it is now; exactly eight functions (the __init__ methods, the documented in-place IoContract.simplify, one dataclass "
+              "__post_init__) declare mutates_self. NOT proved: that results share no mutable state below their top object (term objects may be "
+              "shared between lists; by the frame theorem no library call can observe it), equality of results across heaps, termination; three "
+              "parse actions that scale freshly parsed objects in place and utils/plots.py are outside the effect program. Value level "
+              "(props/C13.v): C13_frame_partial / _globals_partial / _history_independent_partial about the functional session machine "
+              "model/Session.v (near-definitional). Detection with a concrete history is by lock-step runs on the real library: every pool member, "
+              "list argument and module-level state is snapshotted around each of 12-30 operations per history, results are analysed for shared "
+              "mutable objects and mutated in place, and every step is repeated in the same session and in a fresh interpreter."),
+        design="4 (C13)", note=NOTE_T1 + " Trusted for the heap level: the extractor translator/py2coq_heap.py (statement classification tables, external callables assumed read-only, annotations used to treat Var/str/int/float/bool values as atoms: docs/HEAPGEN_REPORT.md A1-A9). The purity of the real CPython objects beyond that is established only on the explored histories."),
     "C14": dict(
         technique="Coq proof over models with explicit escape sites + exhaustive fault enumeration through real files + exception classification",
         text=("Theorems of props/C14.v: the algebra layer (regenerated from source) yields only IncompatibleArgs or an error of a "
